@@ -49,7 +49,7 @@ type Cfg struct {
 	MaxReq            int    // signature requests along a path
 	MaxTransitionSec  int64  // bandtss MaxTransitionDuration
 	FeePerSigner      int64
-	Events            []string // kinds: propose:min propose:max propose:frac propose:past propose:late force:min force:max force:frac probe dkg dkgmsg dkgfast spoil stale sig sigany req reqgov inde act block jump jumpexec jumpfrac expire
+	Events            []string // kinds: propose:min propose:max propose:frac propose:past propose:late force:min force:max force:frac probe dkg dkgmsg dkgfast spoil stale sig sigany req reqgov inde act maxgs block jump jumpexec jumpfrac expire
 	Depth             int
 }
 
@@ -75,6 +75,7 @@ type spec struct {
 	pre        []*preGroup            // pre[k] = material of the (k+1)-th accepted MsgTransitionGroup
 	baseGroups uint64                 // tss group count of the base state
 	incAccs    []bandtesting.Account
+	maxGS      uint64   // tss max_group_size of the base state
 	tracked    []string // addresses whose uband balance the fee ledger predicts
 	module     string
 }
@@ -280,6 +281,7 @@ func (s *spec) build(w *engine.World) (sdk.Context, engine.Model) {
 		panic(err)
 	}
 	s.baseGroups = tk.GetGroupCount(ctx)
+	s.maxGS = tk.GetParams(ctx).MaxGroupSize
 	// member-side material of the future incoming groups.  The DKG context of a group depends only on
 	// its id and the chain id (LastCommitHash is empty in this harness), so it is obtained from a
 	// throw-away branch in which the same proposal is made; Step verifies it against the real one.
@@ -667,6 +669,14 @@ func (s *spec) Enabled(w *engine.World, ctx sdk.Context, mm engine.Model, depth 
 			}
 		}
 	}
+	if s.has("maxgs") {
+		// governance lowers / restores the creation-time limit max_group_size (existing groups may be larger)
+		if tk.GetParams(ctx).MaxGroupSize == s.maxGS {
+			out = append(out, "maxgs:1", "maxgs:2")
+		} else {
+			out = append(out, "maxgs:restore")
+		}
+	}
 	out = append(out, "block")
 	if m.Tr != nil {
 		exec := time.Unix(0, m.Tr.Exec).UTC()
@@ -916,6 +926,19 @@ func (s *spec) Step(w *engine.World, ctx sdk.Context, mm engine.Model, ev string
 		}
 		m.InDE = true
 		st.Outcome = "inde"
+	case "maxgs":
+		p := tk.GetParams(ctx)
+		if parts[1] == "restore" {
+			p.MaxGroupSize = s.maxGS
+		} else {
+			p.MaxGroupSize, _ = strconv.ParseUint(parts[1], 10, 64)
+		}
+		res := w.Tx(ctx, 0, tsstypes.NewMsgUpdateParams(tssh.Authority.String(), p))
+		st.Outcome = "maxgs:" + parts[1] + ":" + res.ErrName()
+		if !res.OK() {
+			st.Violate("harness-precondition/tss-params-update-rejected", "%v", res.Err)
+			return ctx, st
+		}
 	case "act":
 		gid, _ := strconv.ParseUint(parts[1], 10, 64)
 		i, _ := strconv.Atoi(parts[2])
